@@ -92,13 +92,18 @@ def _unwrap(payload):
 
 
 def tlc(module, cfg=None, workers=4, simulate=None, depth=None, seed=None, env=None,
-        timeout=900, metaname=None, dfs=False, heap=None, coverage=False, quiet_fail=False):
+        timeout=900, metaname=None, dfs=False, heap=None, coverage=False, quiet_fail=False, cfg_text=None):
     """Run TLC on spec/<module>.tla; collect CASE/REJECT lines and statistics."""
     os.makedirs(WORK, exist_ok=True)
+    cfg_path = os.path.join(SPEC, (cfg or module) + ".cfg")
+    if cfg_text is not None:
+        cfg_path = os.path.join(WORK, "cfg-%s-%d-%s.cfg" % (module, os.getpid(), hashlib.sha1(cfg_text.encode()).hexdigest()[:8]))
+        with open(cfg_path, "w") as f:
+            f.write(cfg_text)
     meta = os.path.join(WORK, "tlc-" + (metaname or module) + "-%d" % os.getpid())
     shutil.rmtree(meta, ignore_errors=True)
     cmd = ["timeout", str(timeout), "tlc", "-workers", str(workers), "-metadir", meta, "-cleanup",
-           "-noGenerateSpecTE", "-config", os.path.join(SPEC, (cfg or module) + ".cfg")]
+           "-noGenerateSpecTE", "-config", cfg_path]
     if simulate:
         cmd += ["-simulate", "num=%d" % simulate]
         if depth:
@@ -125,6 +130,11 @@ def tlc(module, cfg=None, workers=4, simulate=None, depth=None, seed=None, env=N
     r.rc = p.returncode
     r.out = p.stdout
     shutil.rmtree(meta, ignore_errors=True)
+    if cfg_text is not None:
+        try:
+            os.remove(cfg_path)
+        except OSError:
+            pass
     for line in p.stdout.splitlines():
         m = _case_re.match(line)
         if m:
@@ -548,3 +558,22 @@ def known_matches(k, what, replay):
             if replay.get(key) != want:
                 return False
     return True
+
+
+def generic_replay(ctx, path):
+    """Re-run the case stored in a replay file against the current tree and show both sides."""
+    d = json.load(open(path))
+    rp = d.get("replay", {})
+    job = rp.get("job")
+    if job is None:
+        src = rp.get("scss") or rp.get("src")
+        if src is None:
+            print("replay file has no runnable case; content:\n" + json.dumps(d, indent=1)[:4000])
+            return 0
+        job = {"id": 0, "src": src}
+    res = run_cases([job], "replay")[0]
+    print("WHAT:", d.get("what"))
+    print("CASE:", json.dumps(job)[:2000])
+    print("EXPECTED:", json.dumps(rp.get("expected") or rp.get("expect"))[:2000])
+    print("OBSERVED NOW:", json.dumps({k: res.get(k) for k in ("outcome", "css", "log", "err", "panic", "stdio")})[:2000])
+    return 0
